@@ -13,17 +13,19 @@
    cert_url parses and starts with the signing certificate der, whose key is
    supported, and the signature the signer obtained verifies under that key
    (scheme correctness); H256 returns 32 bytes.
-   Premises about the exchange: [policy_ok] (a boolean; the verifier's policy
-   for the version) and: the digest header was absent before MiEncodePayload
-   (AddPayloadIntegrity only refuses a non-empty FIRST value: see
-   [signed_exchange_needs_absent_digest] in SxgRoundtripVerifyEx.v).           *)
+   Premise about the exchange: [policy_ok] (a boolean; the verifier's policy
+   for the version).  That the digest header was absent before MiEncodePayload
+   is no longer a premise: since the repair of F20 MiEncodePayload refuses any
+   existing value under the canonical key, and a key spelled differently
+   ("digest") would make the header block unencodable (two names equal up to
+   letter case), contradicting signed_message .. = Ok.                          *)
 From Coq Require Import Lia ZifyN ZifyNat ZifyBool Permutation.
 From WP Require Import Base.Prelude Base.Base64 Base.Decimal.
 From WP Require Import Model.Cbor Model.BigEndian Model.Http Model.Url Model.Mice Model.StructHdr
                        Model.CertChain Model.Sxg.
 From WP Require Import Spec.Mice Spec.SxgPolicy.
 From WP Require Spec.StructHdr.
-From WP Require Import Proofs.BaseLemmas Proofs.SHLemmas Proofs.SHRoundtrip Proofs.MiceEncode
+From WP Require Import Proofs.BaseLemmas Proofs.HdrCi Proofs.SHLemmas Proofs.SHRoundtrip Proofs.MiceEncode
                        Proofs.MiceDecode Proofs.SxgSign Proofs.SxgLoop Proofs.SxgReadDefs
                        Proofs.SxgRoundtrip Proofs.SxgVerifyMsg Proofs.SxgVerifySound
                        Proofs.SxgRoundtripVerify.
@@ -59,6 +61,7 @@ Qed.
 (* ---- MiEncodePayload ------------------------------------------------------------------------ *)
 Lemma mi_encode_payload_inv (H : bytes -> bytes) (e0 e1 : exchange) (rs : N) : 1 <= rs ->
   mi_encode_payload H e0 rs = Ok e1 ->
+  hdr_values (e_resph e0) (digest_header_name (mice_of (e_ver e0))) = [] /\
   e1 = {| e_ver := e_ver e0; e_uri := e_uri e0; e_method := e_method e0; e_reqh := e_reqh e0;
           e_status := e_status e0;
           e_resph := hdr_add (hdr_add (e_resph e0) (s2b "Content-Encoding")
@@ -70,9 +73,9 @@ Lemma mi_encode_payload_inv (H : bytes -> bytes) (e0 e1 : exchange) (rs : N) : 1
           e_taint := e_taint e0 |}.
 Proof.
   intros Hrs. unfold mi_encode_payload.
-  destruct (hdr_get (e_resph e0) (digest_header_name (mice_of (e_ver e0)))); [|discriminate].
+  destruct (hdr_values (e_resph e0) (digest_header_name (mice_of (e_ver e0)))); [|discriminate].
   rewrite (encode_refines_spec H _ rs (e_payload e0) Hrs). cbn [bind]. intros E. injection E as <-.
-  reflexivity.
+  split; reflexivity.
 Qed.
 
 Lemma digest_name_ne_ce (d : draft) :
@@ -82,15 +85,30 @@ Proof. destruct d; discriminate. Qed.
 Lemma digest_header_nonempty (H : bytes -> bytes) d rs p : digest_header H d rs p <> [].
 Proof. unfold digest_header. destruct d; discriminate. Qed.
 
-(* the digest header MiEncodePayload added is what headerValue finds *)
+Lemma lookup_cons_in (h : headers) (k v : bytes) (vs : list bytes) :
+  hdr_lookup h k = v :: vs -> In (k, v :: vs) h.
+Proof.
+  induction h as [|[k' vs'] t IH]; cbn [hdr_lookup]; [discriminate|].
+  destruct (bytes_eqb k' k) eqn:E.
+  - apply bytes_eqb_eq in E. subst k'. intros ->. left. reflexivity.
+  - intros H. right. apply IH. exact H.
+Qed.
+
+(* the digest header MiEncodePayload added is what the verifier's headerValue
+   finds, when the resulting map can be signed at all *)
 Lemma mi_encoded_digest_value (h : headers) (d : draft) (ce dg : bytes) :
   hdr_values h (digest_header_name d) = [] ->
-  hdr_value (hdr_add (hdr_add h (s2b "Content-Encoding") ce) (digest_header_name d) dg)
-            (digest_header_name d) = dg.
+  NoDup (map lname (hdr_add (hdr_add h (s2b "Content-Encoding") ce) (digest_header_name d) dg)) ->
+  hdr_value_ci (hdr_add (hdr_add h (s2b "Content-Encoding") ce) (digest_header_name d) dg)
+               (digest_header_name d) = dg.
 Proof.
-  intros Habs. unfold hdr_value, hdr_values, hdr_add in *.
-  rewrite lookup_add_raw_same, (lookup_add_raw_other _ _ _ _ (digest_name_ne_ce d)), Habs.
-  reflexivity.
+  intros Habs Hnd. set (h1 := hdr_add (hdr_add h (s2b "Content-Encoding") ce) (digest_header_name d) dg) in *.
+  assert (Hl : hdr_lookup h1 (canonical_key (digest_header_name d)) = [dg]).
+  { unfold h1, hdr_values, hdr_add in *.
+    rewrite lookup_add_raw_same, (lookup_add_raw_other _ _ _ _ (digest_name_ne_ce d)), Habs.
+    reflexivity. }
+  apply lookup_cons_in in Hl.
+  rewrite (hdr_value_ci_unique h1 _ _ _ Hnd Hl (lower_canonical_key _)). reflexivity.
 Qed.
 
 (* ---- the Signature header, parsed back ------------------------------------------------------- *)
@@ -186,7 +204,7 @@ Definition policy_ok (status_known : Z -> bool) (e : exchange) (validity : bytes
   && post_ok status_known e
   (* b3: Content-Type present *)
   && (has_request (e_ver e)
-      || negb (match hdr_value (e_resph e) (s2b "Content-Type") with [] => true | _ => false end))
+      || negb (match hdr_value_ci (e_resph e) (s2b "Content-Type") with [] => true | _ => false end))
   && negb (e_taint e)
   (* MI record size *)
   && (1 <=? rs) && (rs <=? 16384)
@@ -212,7 +230,6 @@ Section Signed.
           (m sg hdr chain : bytes) (main : augcert) (rest : list augcert) (kid : N)
           (tsec tnsec : Z) :
     (* the signing steps *)
-    hdr_values (e_resph e0) (digest_header_name (mice_of (e_ver e0))) = [] ->
     mi_encode_payload H256 e0 rs = Ok e1 ->
     signed_message e1 (Some (H256 der)) validity date expires = Ok m ->
     signature_header_value H256 e1 [der] cert_url validity date expires sg = Ok hdr ->
@@ -230,7 +247,7 @@ Section Signed.
     (date * 1000000000 <= tsec * 1000000000 + tnsec <= expires * 1000000000)%Z ->
     vfy (set_sig e1 hdr) tsec tnsec = Valid (e_payload e0).
   Proof.
-    intros Habs Hmi Hm Hh Wsg Hf Hcc Hder Hk Hso Hpol Ht Hwin.
+    intros Hmi Hm Hh Wsg Hf Hcc Hder Hk Hso Hpol Ht Hwin.
     unfold policy_ok in Hpol. rewrite !andb_true_iff in Hpol.
     destruct Hpol as ((((((((Pso & Ppost) & Pct) & Ptaint) & Prs1) & Prs2) & Plife) & Pd) & Px).
     apply N.leb_le in Prs1. apply N.leb_le in Prs2. apply Z.leb_le in Plife.
@@ -239,7 +256,9 @@ Section Signed.
     assert (Rx : SS.int64_range expires) by (unfold SS.int64_range; lia).
     destruct (signature_header_parsed H256 e1 der cert_url validity date expires sg hdr
                 Wsg (Hwf der) Rd Rx Hh) as (pi & Eparse & Eext).
-    pose proof (mi_encode_payload_inv H256 e0 e1 rs Prs1 Hmi) as E1.
+    destruct (mi_encode_payload_inv H256 e0 e1 rs Prs1 Hmi) as [Habs E1].
+    assert (Hnd1 : NoDup (map lname (e_resph e1))).
+    { destruct (signed_message_ok_headers _ _ _ _ _ _ Hm) as [hb Ehb]. exact (encode_headers_ok_nodup e1 hb Ehb). }
     assert (Ever : e_ver e1 = e_ver e0) by (rewrite E1; reflexivity).
     set (s := {| s_sig := sg; s_integrity := integrity_identifier (mice_of (e_ver e1));
                  s_cert_url := cert_url; s_cert_sha := H256 der; s_validity := validity;
@@ -255,15 +274,16 @@ Section Signed.
         unfold InWindow, nano. lia.
       - intros Hr. change (e_ver e2) with (e_ver e1) in Hr. change (e_ver e2) with (e_ver e1) in Pct.
         rewrite Hr in Pct. cbn [orb] in Pct.
-        destruct (hdr_value (e_resph e2) (s2b "Content-Type")); [discriminate Pct|discriminate].
+        destruct (hdr_value_ci (e_resph e2) (s2b "Content-Type")); [discriminate Pct|discriminate].
       - unfold SxgPolicy.PayloadOk. change (e_ver e2) with (e_ver e1).
         change (e_resph e2) with (e_resph e1). change (e_payload e2) with (e_payload e1).
         split; [cbn [s s_integrity]; apply SxgVerifySound.integrity_of_eq|].
         rewrite <- (SxgVerifySound.digest_field_of_eq (e_ver e1)),
                 <- (SxgVerifySound.mice_draft_of_eq (e_ver e1)).
-        assert (Edg : hdr_value (e_resph e1) (digest_header_name (mice_of (e_ver e1)))
+        assert (Edg : hdr_value_ci (e_resph e1) (digest_header_name (mice_of (e_ver e1)))
                       = digest_header H256 (mice_of (e_ver e0)) rs (e_payload e0)).
-        { rewrite Ever. rewrite E1. cbn [e_resph]. apply mi_encoded_digest_value. exact Habs. }
+        { rewrite Ever. revert Hnd1. rewrite E1. cbn [e_resph]. intros Hnd1.
+          apply mi_encoded_digest_value; [exact Habs|exact Hnd1]. }
         rewrite Edg. split; [apply digest_header_nonempty|].
         rewrite Ever. replace (e_payload e1) with (stream H256 (mice_of (e_ver e0)) rs (e_payload e0))
           by (rewrite E1; reflexivity).
@@ -282,7 +302,6 @@ Section Signed.
           (e0 e1 : exchange) (rs : N) (der cert_url validity : bytes) (date expires : Z)
           (m sg hdr chain : bytes) (main : augcert) (rest : list augcert) (kid : N)
           (bs : bytes) :
-    hdr_values (e_resph e0) (digest_header_name (mice_of (e_ver e0))) = [] ->
     mi_encode_payload H256 e0 rs = Ok e1 ->
     signed_message e1 (Some (H256 der)) validity date expires = Ok m ->
     signature_header_value H256 e1 [der] cert_url validity date expires sg = Ok hdr ->
@@ -295,7 +314,6 @@ Section Signed.
     policy_ok status_known (set_sig e1 hdr) validity date expires rs = true ->
     (* the file *)
     readable (set_sig e1 hdr) = true ->
-    lookup_stable (set_sig e1 hdr) = true ->
     write (set_sig e1 hdr) = Ok bs ->
     exists e', read bs = Ok e' /\
       forall tsec tnsec, time_ok tsec tnsec ->
@@ -303,8 +321,8 @@ Section Signed.
         vfy e' tsec tnsec = Valid (e_payload e0) /\
         vfy e' tsec tnsec = vfy (set_sig e1 hdr) tsec tnsec.
   Proof.
-    intros Habs Hmi Hm Hh Wsg Hf Hcc Hder Hk Hso Hpol Hr Hst Hw.
-    destruct (verdict_same_after_roundtrip H256 x509_key sig_ok status_known fetch _ bs Hr Hw Hst)
+    intros Hmi Hm Hh Wsg Hf Hcc Hder Hk Hso Hpol Hr Hw.
+    destruct (verdict_same_after_roundtrip H256 x509_key sig_ok status_known fetch _ bs Hr Hw)
       as (e' & Erd & Hsame).
     exists e'. split; [exact Erd|]. intros tsec tnsec Ht Hwin.
     rewrite Hsame. split; [|reflexivity].
@@ -312,29 +330,3 @@ Section Signed.
   Qed.
 End Signed.
 
-(* ---- Header.Add keeps a canonical map canonical: [lookup_stable] for the signed
-        exchange follows from the caller's map being canonical -------------------------------------- *)
-Lemma canonical_key_idem (k : bytes) : canonical_key (canonical_key k) = canonical_key k.
-Proof.
-  unfold canonical_key at 2 3. destruct (forallb is_tchar k) eqn:Hk; [|unfold canonical_key; rewrite Hk; reflexivity].
-  unfold canonical_key. rewrite (canon_go_tchar k true Hk). apply canon_go_idem.
-Qed.
-
-Lemma canonical_keys_add (h : headers) (k v : bytes) :
-  canonical_keys h = true -> canonical_keys (hdr_add h k v) = true.
-Proof.
-  unfold hdr_add, canonical_keys. intros Hc.
-  induction h as [|[k' vs] t IH]; cbn [hdr_add_raw forallb fst].
-  - rewrite canonical_key_idem, bytes_eqb_refl. reflexivity.
-  - cbn [forallb fst] in Hc. apply andb_true_iff in Hc. destruct Hc as [H1 H2].
-    destruct (bytes_eqb k' (canonical_key k)); cbn [forallb fst]; rewrite H1; [exact H2|apply IH; exact H2].
-Qed.
-
-Theorem signed_lookup_stable (H : bytes -> bytes) (e0 e1 : exchange) (rs : N) (hdr : bytes) :
-  1 <= rs -> canonical_keys (e_resph e0) = true -> mi_encode_payload H e0 rs = Ok e1 ->
-  lookup_stable (set_sig e1 hdr) = true.
-Proof.
-  intros Hrs Hc Hmi. apply canonical_keys_lookup_stable. change (e_resph (set_sig e1 hdr)) with (e_resph e1).
-  rewrite (mi_encode_payload_inv H e0 e1 rs Hrs Hmi). cbn [e_resph].
-  apply canonical_keys_add, canonical_keys_add, Hc.
-Qed.
